@@ -1,3 +1,4 @@
+import RsMatterVerif.Generated.Consts
 import RsMatterVerif.Model.Codec.Buf
 /-!
 # Model of `transport/plain_hdr.rs` (`PlainHdr::encode` / `decode`, the setters and getters)
@@ -6,14 +7,15 @@ Flag sets are `Nat` bit masks (`bitflags`): `contains m` = all bits of `m` set.
 namespace Codec.PlainHdr
 open Codec
 
-def DSIZ_UNICAST : Nat := 0x01
-def DSIZ_GROUPCAST : Nat := 0x02
-def SRC_ADDR_PRESENT : Nat := 0x04
-def DSIZ_MASK : Nat := 0x03
+def DSIZ_UNICAST : Nat := Consts.c17MsgDsizUnicast
+def DSIZ_GROUPCAST : Nat := Consts.c17MsgDsizGroupcast
+def SRC_ADDR_PRESENT : Nat := Consts.c17MsgSrcPresent
+def DSIZ_MASK : Nat := DSIZ_UNICAST ||| DSIZ_GROUPCAST
 /-- all defined `MsgFlags` bits (`from_bits` refuses anything else) -/
-def MSG_FLAGS_ALL : Nat := 0x07
+def MSG_FLAGS_ALL : Nat := DSIZ_MASK ||| SRC_ADDR_PRESENT
 /-- all defined `SecFlags` bits: GROUP_SESSION | MSG_EXT | CONTROL_MSG | PRIVACY -/
-def SEC_FLAGS_ALL : Nat := 0xE1
+def SEC_FLAGS_ALL : Nat :=
+  Consts.c17SecGroupSession ||| Consts.c17SecMsgExt ||| Consts.c17SecControlMsg ||| Consts.c17SecPrivacy
 
 def contains (flags m : Nat) : Bool := flags &&& m == m
 
